@@ -125,14 +125,14 @@ func encodedFile(a *alphabet, url string, b *bundleSpec) ([]byte, error) {
 	if err, pv := safeSet(e.cache, url, b.B); err != nil || pv != nil {
 		return nil, fmt.Errorf("Set: %v %v", err, pv)
 	}
-	ents, err := os.ReadDir(e.root)
-	if err != nil || len(ents) != 1 {
-		return nil, fmt.Errorf("expected one file, found %d (%v)", len(ents), err)
+	ents := e.files()
+	if len(ents) != 1 {
+		return nil, errLayout
 	}
-	return os.ReadFile(filepath.Join(e.root, ents[0].Name()))
+	return os.ReadFile(filepath.Join(e.root, ents[0]))
 }
 
-func newInstAlphabet(a *alphabet, bundleNames, replaceWith []string) (*instAlphabet, error) {
+func newInstAlphabet(a *alphabet, bundleNames, replaceWith []string, external bool) (*instAlphabet, error) {
 	ia := &instAlphabet{a: a, files: map[string][]byte{}}
 	for _, n := range []string{"plain", "upper-scheme"} {
 		ia.urls = append(ia.urls, a.urlByName(n))
@@ -150,6 +150,9 @@ func newInstAlphabet(a *alphabet, bundleNames, replaceWith []string) (*instAlpha
 				ia.ops = append(ia.ops, iop{iSet, inst, u, b})
 			}
 			ia.ops = append(ia.ops, iop{iGet, inst, u, nil})
+		}
+		if !external {
+			continue
 		}
 		ia.ops = append(ia.ops, iop{iDelete, 0, u, nil}, iop{iTruncate, 0, u, nil}, iop{iGarbage, 0, u, nil})
 		for _, n := range replaceWith {
@@ -312,15 +315,17 @@ func runInstances(ia *instAlphabet, seq []iop, eager, count bool) (vs []viol, ev
 				lastWriter[o.U] = o.Inst
 				class("set:stored")
 				if name[o.U] == "" {
-					ents, _ := os.ReadDir(e.root)
 					var fresh []string
-					for _, en := range ents {
-						if en.Name() != name[1-o.U] {
-							fresh = append(fresh, en.Name())
+					for _, en := range e.files() {
+						if en != name[1-o.U] {
+							fresh = append(fresh, en)
 						}
 					}
 					if len(fresh) != 1 {
-						vs = append(vs, viol{"instances/entry-count-differs-from-stored-urls", fmt.Sprintf("after %s the entry file of the URL cannot be told: files not belonging to the other URL: %q", tag, fresh)})
+						// how many files an entry takes is not fixed by the statement; without knowing the file the
+						// external changes cannot be applied: the rest of this history is not run
+						class("recorded:entry-file-cannot-be-told(rest of the history not run)")
+						layoutUnknown.Store(true)
 						return
 					}
 					name[o.U] = fresh[0]
@@ -406,15 +411,15 @@ func runInstances(ia *instAlphabet, seq []iop, eager, count bool) (vs []viol, ev
 				want++
 			}
 		}
-		if ents, _ := os.ReadDir(e.root); len(ents) != want {
-			vs = append(vs, viol{"instances/entry-count-differs-from-stored-urls", fmt.Sprintf("after %s: %d URLs have an entry, the cache root holds %d files", tag, want, len(ents))})
+		if len(e.files()) != want {
+			class("recorded:entry-count-differs-from-stored-urls") // not fixed by the statement
 		}
 	}
 	s, err := e.snapshot()
 	if err != nil {
 		vs = append(vs, viol{"!infra", err.Error()})
-	} else if len(s.outside) > 0 || len(s.dirs) > 0 {
-		vs = append(vs, viol{"instances/file-outside-root", fmt.Sprintf("after %s: outside the cache root: files %q, directories %q", ia.opString(seq[len(seq)-1]), s.outside, s.dirs)})
+	} else if len(s.outside) > 0 {
+		vs = append(vs, viol{"instances/file-outside-root", fmt.Sprintf("after %s: outside the cache root: %q", ia.opString(seq[len(seq)-1]), s.outside)})
 	}
 	return
 }
@@ -470,6 +475,7 @@ func (ia *instAlphabet) enumerate(r *hx.Run, depth int, eager bool, label string
 }
 
 var familyDeadline time.Time
+var layoutUnknown atomic.Bool
 
 // instanceFamily is called once from main (before the replay dispatch: it replays its own cases).
 func instanceFamily(r *hx.Run, a *alphabet) {
@@ -480,7 +486,7 @@ func instanceFamily(r *hx.Run, a *alphabet) {
 		if err := r.LoadReplay(&c); err != nil || c.Kind != "instances" {
 			return // another family's case
 		}
-		ia, err := newInstAlphabet(a, wide, wide)
+		ia, err := newInstAlphabet(a, wide, wide, true)
 		if err == nil {
 			err = ia.prepare()
 		}
@@ -506,9 +512,9 @@ func instanceFamily(r *hx.Run, a *alphabet) {
 		r.Finish()
 	}
 	// own time budget, so that this family (it runs first) never eats the time of the single-instance search
-	familyDeadline = time.Now().Add(20 * time.Second)
+	familyDeadline = time.Now().Add(budget(20 * time.Second))
 	if r.Thorough() {
-		familyDeadline = time.Now().Add(200 * time.Second)
+		familyDeadline = time.Now().Add(budget(200 * time.Second))
 	}
 	type pass struct {
 		label   string
@@ -524,9 +530,14 @@ func instanceFamily(r *hx.Run, a *alphabet) {
 	}
 	var evidence []map[string]any
 	for _, p := range passes {
-		ia, err := newInstAlphabet(a, p.bundles, p.replace)
+		ia, err := newInstAlphabet(a, p.bundles, p.replace, true)
 		if err == nil {
 			err = ia.prepare()
+		}
+		if errors.Is(err, errLayout) {
+			r.Capped("two-instance family: external-change operations not run (" + err.Error() + ")")
+			layoutUnknown.Store(true)
+			ia, err = newInstAlphabet(a, p.bundles, nil, false)
 		}
 		if err != nil {
 			if r.Violations() == 0 {
@@ -550,11 +561,19 @@ func instanceFamily(r *hx.Run, a *alphabet) {
 	r.Extra["instance_histories"] = evidence
 	// controls of this family; they presuppose that one instance reads back what it stored itself - where even that
 	// fails (this family runs first) the single-instance families decide, and their verdict must not be masked by exit 2
+	if layoutUnknown.Load() {
+		r.Capped("two-instance family: the entry file of a URL could not be told in some histories; their external changes were not applied")
+	}
 	if r.Violations() == 0 && cs.get("inst:get:bundle-faithful:base") > 0 {
-		for _, c := range []string{"inst:get:bundle-faithful:base(stored through the other instance)", "inst:get:bundle-faithful:base(file replaced from outside)",
-			"inst:get:error(file damaged from outside)", "inst:get:miss:never-stored", "inst:ext-delete"} {
+		need := []string{"inst:get:bundle-faithful:base(stored through the other instance)", "inst:get:miss:never-stored"}
+		if !layoutUnknown.Load() {
+			need = append(need, "inst:get:bundle-faithful:base(file replaced from outside)", "inst:get:error(file damaged from outside)", "inst:ext-delete")
+		}
+		for _, c := range need {
 			if cs.get(c) == 0 {
-				r.Infra("two-instance family: control class %q was never observed", c)
+				// never an alarm: the statement does not demand that a fresh entry IS handed out (implication);
+				// the evidence shows the family as not exhaustive instead
+				r.Capped(fmt.Sprintf("two-instance family: control class %q was never observed", c))
 			}
 		}
 	}
